@@ -249,9 +249,17 @@ _public_ int m_mod_ps_subscribe(m_mod_t *mod, const char *topic, m_src_flags fla
             if (old_sub) {
                 if (old_sub->flags == flags) {
                     /* Only update userptr */
+                    if (flags & M_SRC_AUTOFREE && old_sub->userptr != userptr) {
+                        memhook._free((void *)old_sub->userptr);
+                    }
                     old_sub->userptr = userptr;
                     return 0;
                 }
+                /*
+                 * Different flags: drop old subscription first, together with its map entry
+                 * (whose key may be old subscription's own copy of the topic)
+                 */
+                m_map_remove(mod->subscriptions, topic);
             }
         }
 
